@@ -229,6 +229,17 @@ func RunHistory(rng *common.Rng, cfg Config) (*Run, error) {
 			silentDeferred[o.S] = false
 			staleSel[o.S] = verifhook.Held(w.StateID[o.S]) > 0
 		}
+		if o.Cmd == "close" || o.Cmd == "unselect" {
+			// the mailbox is left: the client discards its mirror (what CLOSE still sends - never an EXPUNGE - is compared
+			// with the model's answer only)
+			if obs.Outcome != "OOk" {
+				fail("C01", "command refused: "+o.Cmd+" -> "+obs.Outcome, strings.Join(obs.Raw, " / "))
+			}
+			overtook[o.S], selfReadd[o.S], silentDeferred[o.S], staleSel[o.S] = false, false, false, false
+			mustAnnounce[o.S], pendingExp[o.S], idleMust[o.S], needFlush[o.S] = false, 0, false, false
+			m.Selected, m.Cells = false, nil
+			return obs, nil
+		}
 		if (o.Cmd == "copy" || o.Cmd == "move") && m.Selected && o.Mb == m.Mb {
 			selfReadd[o.S] = true
 		}
@@ -659,8 +670,13 @@ func RunHistory(rng *common.Rng, cfg Config) (*Run, error) {
 			}
 		case x < 69:
 			o = Op{Kind: "cmd", S: s, Cmd: "idle"}
-		case x < 73:
+		case x < 72:
 			o = Op{Kind: "cmd", S: s, Cmd: "select", Mb: rng.Pick(cfg.NMbox)}
+		case x < 73:
+			if cfg.Observer && s == 0 {
+				continue
+			}
+			o = Op{Kind: "cmd", S: s, Cmd: []string{"close", "unselect"}[rng.Pick(2)]}
 		case x < 90:
 			if verifhook.Held(w.StateID[s]) == 0 {
 				continue
